@@ -128,17 +128,24 @@ def oprfNew (A : Arith α) (cap : Nat) (eps delta : α) (sens : Nat) (r p : α) 
     | .ok d => .ok (d / 2)
     | .error e => .error e
 
-/-- `NoiseParams::new` (after the fix F4: `delta <= 0.0` is rejected; the unfixed code had `delta != 0.0`). -/
+/-- `NoiseParams::new` (after the fixes F4: `delta != 0.0` was the rejected case, and F13: the range checks are
+written `!(x > 0.0)`, so NaN — for which every comparison is false — is rejected; the unfixed code had
+`x <= 0.0`, see `noiseParamsNewUnfixed`). -/
 def noiseParamsNew (A : Arith α) (eps delta succ dims qs l1 l2 linf : α) : Except String Unit :=
-  if A.le eps A.zero then .error "epsilon must be > 0.0"
-  else if A.le delta A.zero then .error "delta must be > 0.0"
+  if !(A.lt A.zero eps) then .error "epsilon must be > 0.0"
+  else if !(A.lt A.zero delta) then .error "delta must be > 0.0"
   else if !(A.le A.zero succ && A.le succ A.one) then .error "success_prob must be between 0 and 1"
-  else if A.le dims A.zero then .error "dimensions must be > 0.0"
-  else if A.le qs A.zero then .error "quantization_scale must be > 0.0"
-  else if A.le l1 A.zero then .error "ell_1_sensitivity must be > 0.0"
-  else if A.le l2 A.zero then .error "ell_2_sensitivity must be > 0.0"
-  else if A.le linf A.zero then .error "ell_infty_sensitivity must be > 0.0"
+  else if !(A.lt A.zero dims) then .error "dimensions must be > 0.0"
+  else if !(A.lt A.zero qs) then .error "quantization_scale must be > 0.0"
+  else if !(A.lt A.zero l1) then .error "ell_1_sensitivity must be > 0.0"
+  else if !(A.lt A.zero l2) then .error "ell_2_sensitivity must be > 0.0"
+  else if !(A.lt A.zero linf) then .error "ell_infty_sensitivity must be > 0.0"
   else .ok ()
+
+/-- one range check of `NoiseParams::new` as fixed (`!(x > 0.0)`) and as it was before F13 (`x <= 0.0`):
+`true` = rejected.  They agree on every ordered field and differ exactly on NaN. -/
+def noiseRangeReject (A : Arith α) (x : α) : Bool := !(A.lt A.zero x)
+def noiseRangeRejectUnfixed (A : Arith α) (x : α) : Bool := A.le x A.zero
 
 /-- the unfixed `NoiseParams::new` δ check (documented counterexample of F4). -/
 def noiseParamsDeltaCheckUnfixed (A : Arith α) (delta : α) : Bool := !(A.eq delta A.zero)
